@@ -133,7 +133,7 @@ def run(pid, tier):
             r['status'] = 'solve-err'; invalid_written += 1
     recs, details = [], {}
     for r in res + res2:
-        rec = {'id': r['id'], 'kind': r['kind'], 'status': r['status'], 'fixpoint': bool(r.get('fixpoint', False)),
+        rec = {'id': r['id'], 'kind': r['kind'], 'status': r['status'], 'fixpoint': bool(r.get('fixpoint', False)), 'firstPassSame': bool(r.get('firstPassSame', False)),
                'S': {'tours': [], 'unassigned': []}, 'S2': {'tours': [], 'unassigned': []}, 'rows': [], 'vrows': [], 'P': {'jobs': [], 'vehicles': [], 'profiles': []}, 'valid': False}
         if r['kind'] == 'init' and r['status'] == 'ok':
             customer = {j['id'] for j in init_by_id[r['id']]['problem']['plan']['jobs']}
@@ -162,6 +162,7 @@ def run(pid, tier):
     c = copy.deepcopy(b); c['status'] = 'init-err'; cans.append((c, 'InitReadable'))
     g = next(r for r in recs if r['kind'] == 'doc' and r['status'] == 'ok')
     c = copy.deepcopy(g); c['fixpoint'] = False; cans.append((c, 'DocFixpoint'))
+    c = copy.deepcopy(g); c['firstPassSame'] = False; cans.append((c, 'DocKeptByFirstPass'))
     c = copy.deepcopy(g); c['status'] = 'parse-err'; cans.append((c, 'DocParses'))
     c = copy.deepcopy(g); c['status'] = 'panic'; cans.append((c, 'NoPanic'))
     v = next(r for r in recs if r['kind'] == 'csv' and r['status'] == 'ok' and r['valid'] and any(t['hasDemand'] for j in r['P']['jobs'] for t in j['tasks']))
@@ -196,7 +197,7 @@ def run(pid, tier):
             x = tab_by_id[rid]
             profiles = [v['profile'] for v in x['vehicles']]
             q = 'csv/' + ('vehicle-rows-sharing-a-profile' if len(set(profiles)) < len(profiles) else 'general')
-        verdict.add('C11/%s/%s' % (name, q), '%s: status %s %s' % (rid, r['status'], (r.get('error') or r.get('fixpointDiff') or json.dumps(r.get('valid')) or '')[:200]),
+        verdict.add('C11/%s/%s' % (name, q), '%s: status %s %s' % (rid, r['status'], (r.get('error') or r.get('fixpointDiff') or r.get('firstPassDiff') or json.dumps(r.get('valid')) or '')[:200]),
                     {'input': by_id[rid] if r['kind'] != 'init' else {k: init_by_id[rid][k] for k in ('id', 'seed', 'problem', 'matrices', 'config')}, 'result': r})
     rc = verdict.finish()
     kinds = collections.Counter((r['kind'], by_id[r['id']].get('what', '')) for r in recs)
